@@ -424,7 +424,7 @@ def run(ctx: Ctx):
         reasons = re.findall(r"⟩, \.(\w+)\)", table)
         by_reading = {"fixedLenSecret", "clockNotRead", "unseededByConfig", "hashNotIterated", "offline", "setMembershipOnly", "setIntHash",
                       "setCycleCheck", "setDeclCovered", "seeding"}
-        ctx.cov["discharges"] = {"total": len(reasons), "by_lemma": sum(1 for r in reasons if r not in by_reading),
+        ctx.cov["discharges"] = {"total": len(reasons), "by_lemma": sum(1 for r in reasons if r not in by_reading and r != "readingLenF9"),
                                  "by_reading": sum(1 for r in reasons if r in by_reading),
                                  "open_finding_F9": sum(1 for r in reasons if r == "readingLenF9")}
     ctx.cov["rule"] = ("cross-process cases = (scenario, action map, operation list = episode with the configured seed | reset(s) + B | reset(s) + B "
